@@ -67,7 +67,7 @@ Definition show_internal (k : internal) : string :=
   | INoSelector => "INoSelector" | INoListSize => "INoListSize" | IEncrypt => "IEncrypt"
   | IRspEncMismatch => "IRspEncMismatch" | IRspNoCommandCode => "IRspNoCommandCode"
   | IUnionAtRoot => "IUnionAtRoot" | IAuthNone => "IAuthNone" | IStopOnSend => "IStopOnSend"
-  | IStaleNone => "IStaleNone"
+  | IStaleNone => "IStaleNone" | IListNotDone => "IListNotDone"
   end.
 
 Definition show_outcome (o : outcome) : string :=
